@@ -98,7 +98,7 @@ vars == <<hist, sess, file, proc, obs, ref, pc, cur>>
 \* family "persist": the first test case turns ONE option on, the second performs one representative operation (or turns
 \* that option off again), the third only looks: options under which the EXIT-trap dump itself runs (noclobber, nounset, ...)
 Representative(o) == \/ o.op \in {"setvar", "setexported", "cfgenv"} /\ o.a \in {"v1", "TMPDIR_ORIG"} /\ o.b = "scalar" /\ o.c = "plain"
-                     \/ o.op \in {"deffunc", "defalias"} /\ o.b = "1"
+                     \/ o.op \in {"deffunc", "defalias"}          \* (body 2 of the function only parses while extglob is on)
                      \/ o.op \in {"cd", "pushd"} /\ o.a = "sub1"
                      \/ o.op = "setopt" /\ (o.b = "off" \/ o.a = "pipefail")
                      \/ o.op = "shopt" /\ (o.b = "off" \/ o.a = "nullglob")
